@@ -25,6 +25,14 @@ CHECKS = {
              'points are compared (n range, in-place remainder, exact-size iff n==len, buffer untouched on failure) '
              'and framing units are checked against an independent header reader and for self-delimitation.',
         design='§5 C03'),
+    'C04': dict(
+        technique='explicit-state BFS over the reader/environment system on the real parse_mutable',
+        text='Reader loop x fragmenting environment explored as a reachability problem: every (records emitted, '
+             'bytes delivered) state of every record sequence of length <= 3 (quick) / 4 over a per-layer alphabet, '
+             'every delivery the environment may choose after NotEnoughData(k); invariants: no deadlock '
+             '(d+k <= end of record in progress), no premature accept, exact reassembly. Plus TLS handshake messages '
+             'cut over records at every set of <= 2-3 positions.',
+        design='§5 C04'),
     'C17': dict(
         technique='exhaustive explicit-state enumeration (all pairs, triples, permutations) on the real class',
         text='Complete: every ordered pair and triple of all defined versions, every permutation of every '
